@@ -177,8 +177,8 @@ def run_harnesses(scratch, obs, jobs, mem_kb, timeout_s, tag, cbmc_args=None, lo
         if m and cur:
             stub_lines[cur].append(' '.join(m.group(1).split()))
     if data is not None:
-        stats = {c['harness_id']: c.get('cbmc_stats', {}) for c in data.get('cbmc', [])}
-        pdet = {c['harness_id']: c.get('property_details', {}) for c in data.get('property_details', [])}
+        stats = {c['harness_id']: (c.get('cbmc_stats') or {}) for c in data.get('cbmc', [])}
+        pdet = {c['harness_id']: (c.get('property_details') or {}) for c in data.get('property_details', [])}
         edet = {c['harness_id']: c for c in data.get('error_details', [])}
         for r in data.get('verification_results', {}).get('results', []):
             hid = r['harness_id']
@@ -256,32 +256,31 @@ def concrete_playback(scratch, ob, mem_kb, timeout_s, cbmc_args=None, log_dir=No
     if log_dir:
         with open(os.path.join(log_dir, 'playback_%s.log' % ob.harness), 'w') as f:
             f.write(log)
-    # one generated test per failing check AND per satisfied cover: take the first one that is not a cover
-    chosen = None
+    # One generated test per failing check AND per satisfied cover; Kani de-duplicates tests with identical
+    # values, so the failing input may be filed under a cover. Candidates: non-cover tests first, then cover tests.
+    cands = []
     for blk in re.split(r'(?=/// Test generated for harness)', log):
         cm = re.search(r"/// Check for `([a-z_]+)`: (.*)", blk)
-        if not cm or cm.group(1) == 'cover':
-            continue
         m = re.search(r'let concrete_vals: Vec<Vec<u8>> = vec!\[(.*?)\n\s*\];', blk, re.S)
-        if m:
-            chosen = (m, cm.group(2))
-            break
-    if chosen is None:
+        if not cm or not m:
+            continue
+        vals = []
+        comments = []
+        last_comment = None
+        for line in m.group(1).splitlines():
+            line = line.strip()
+            if line.startswith('//'):
+                last_comment = line[2:].strip()
+            mm = re.match(r'vec!\[([0-9, ]*)\],?', line)
+            if mm:
+                vals.append([int(x) for x in mm.group(1).replace(' ', '').split(',') if x])
+                comments.append(last_comment)
+                last_comment = None
+        cands.append({'vals': vals, 'comments': comments, 'kind': cm.group(1), 'check': cm.group(2)})
+    cands.sort(key=lambda c: c['kind'] == 'cover')
+    if not cands:
         return None, log
-    m, which = chosen
-    vals = []
-    comments = []
-    last_comment = None
-    for line in m.group(1).splitlines():
-        line = line.strip()
-        if line.startswith('//'):
-            last_comment = line[2:].strip()
-        mm = re.match(r'vec!\[([0-9, ]*)\],?', line)
-        if mm:
-            vals.append([int(x) for x in mm.group(1).replace(' ', '').split(',') if x])
-            comments.append(last_comment)
-            last_comment = None
-    return {'vals': vals, 'comments': comments}, log
+    return cands, log
 
 
 REPLAY_MAIN = '''
@@ -307,8 +306,10 @@ def build_replay(scratch, ob, vals, log_dir=None):
     entry = ('\n#[cfg(verif_replay)]\npub fn verif_replay_entry() {\n'
              '    crate::verif_support::shim::set_values(vec![%s]);\n    crate::%s();\n}\n'
              % (', '.join('vec![%s]' % ', '.join(str(b) for b in v) for v in vals), ob.full))
-    with open(lib, 'a') as f:
-        f.write(entry)
+    cur = open(lib).read()
+    cur = re.sub(r'\n#\[cfg\(verif_replay\)\]\npub fn verif_replay_entry\(\) \{.*?\n\}\n', '', cur, flags=re.S)
+    with open(lib, 'w') as f:
+        f.write(cur + entry)
     rdir = os.path.join(scratch, 'verif_replay_runner')
     os.makedirs(os.path.join(rdir, 'src'), exist_ok=True)
     with open(os.path.join(rdir, 'Cargo.toml'), 'w') as f:
